@@ -27,7 +27,7 @@ def ops04 (op : String) (a : List String) : Option String :=
   | "flag.dec", [h, lsb] => (parseBool lsb).map fun lsb => showPy showBits (hexToFlag8 (unesc h) lsb)
   | "flag.enc", [bits, lsb] => (parseBool lsb).map fun lsb => showPy esc (hexFromFlag8 (parseBits bits) lsb)
   | "str.dec", [h] => some (showPy esc (hexToStr (unesc h)))
-  | "str.enc", [s] => some ("ok\t" ++ esc (hexFromStr (unesc s)))
+  | "str.enc", [s] => some (showPy esc (hexFromStr (unesc s)))
   | "dtm.dec", [h] => some (showPy (showOpt showDT) (hexToDtm (unesc h)))
   | "dtm.enc", [d, dst, secs] => (parseBool dst).bind fun dst => (parseBool secs).bind fun secs =>
       if d = "None" then some ("ok\t" ++ esc (hexFromDtm none dst secs))
